@@ -22,6 +22,8 @@ import "bufio"
 import "io"
 import "math"
 import "os"
+import "strconv"
+import "strings"
 
 /* -------------------------------------------------------------------------- */
 
@@ -222,4 +224,20 @@ func bufioReadLine(reader *bufio.Reader) (string, error) {
   }
   // remove newline character
   return l[0:len(l)-1], err
+}
+
+/* -------------------------------------------------------------------------- */
+
+// Parse an entry of a table file. If the entry is an integer it is returned
+// exactly (isInt is true), so that integer types do not loose precision by a
+// detour over float64.
+func parseTableEntry(str string) (vi int64, vf float64, isInt bool, err error) {
+  if v, err := strconv.ParseInt(str, 10, 64); err == nil && !(v == 0 && strings.HasPrefix(str, "-")) {
+    return v, float64(v), true, nil
+  }
+  if v, err := strconv.ParseFloat(str, 64); err != nil {
+    return 0, 0.0, false, err
+  } else {
+    return int64(v), v, false, nil
+  }
 }
